@@ -235,7 +235,7 @@ class FnTr(object):
         if isinstance(e, ast.Compare):
             return self.compare(e, env, binds)
         if isinstance(e, ast.BoolOp):
-            return self.boolop(e, env, binds)
+            return self.boolop(e, env, binds, False)
         if isinstance(e, ast.IfExp):
             c = self.truth(e.test, env, binds)
             n = len(binds)
@@ -254,6 +254,8 @@ class FnTr(object):
 
     def truth(self, e, env, binds):
         """e in a boolean context"""
+        if isinstance(e, ast.BoolOp):
+            return self.boolop(e, env, binds, True)[0]
         v, t = self.expr(e, env, binds)
         if t == "bool":
             return v
@@ -326,12 +328,19 @@ class FnTr(object):
             return "(%s %s %s)" % (tbl[op], x, y), "bool"
         refuse(e, "comparison of %s and %s" % (ta, tb))
 
-    def boolop(self, e, env, binds):
+    def boolop(self, e, env, binds, boolean_context):
+        """`a and b` / `a or b` evaluate to one of the operands: outside a boolean context (if / not / and / or / any)
+        every operand must itself be a bool, so that the result is its truth value"""
         is_or = isinstance(e.op, ast.Or)
         parts = []
         for i, x in enumerate(e.values):
             b = binds if i == 0 else []
-            v = self.truth(x, env, b)
+            if boolean_context:
+                v = self.truth(x, env, b)
+            else:
+                v, t = self.expr(x, env, b)
+                if t != "bool":
+                    refuse(x, "operand of and/or of type %s where the value (not only its truth) is used" % (t,))
             parts.append((v, [] if i == 0 else b))
         if all(not b for _, b in parts):
             out = parts[-1][0]
@@ -623,7 +632,13 @@ class FnTr(object):
             val = s.value
             binds = []
             v, t = self.expr(val, env, binds)
-            if is_list(t) and isinstance(val, (ast.Name, ast.IfExp, ast.BoolOp)):
+            new_list = isinstance(val, ast.List) or (isinstance(val, ast.Call) and isinstance(val.func, ast.Name)
+                                                      and val.func.id == "list") \
+                or (isinstance(val, ast.Subscript) and isinstance(val.slice, ast.Slice)) \
+                or (isinstance(val, ast.BinOp) and isinstance(val.op, ast.Add))
+            if is_list(t) and not new_list:
+                # x = self.items / x = other / x = reversed(l): a second name (or a live iterator) for an existing list;
+                # the regenerated code treats lists as values, so later in-place changes would be lost
                 refuse(s, "a second name for an existing list")
             if t == "list ?":
                 t = self.hints.get(tg.id, "list ?")
@@ -631,7 +646,7 @@ class FnTr(object):
             if t == "unit":
                 refuse(s, "assignment of None")
             self.bind_local(s, tg.id, t, env)
-            if is_list(t) and isinstance(val, (ast.List, ast.Call)):
+            if is_list(t) and new_list:
                 self.fresh.add(tg.id)
             else:
                 self.fresh.discard(tg.id)
